@@ -310,6 +310,12 @@ class AsyncConnectionPool(AsyncRequestInterface):
                 # log: "closing idle connection"
                 self._connections.remove(connection)
                 closing_connections.append(connection)
+            elif connection not in reserved and not connection.is_idle():
+                # log: "closing abandoned connection"
+                # No request is using this connection or about to: the one
+                # it was handed to has left without completing an exchange.
+                self._connections.remove(connection)
+                closing_connections.append(connection)
 
         # Assign queued requests to connections.
         queued_requests = [request for request in self._requests if request.is_queued()]
